@@ -87,3 +87,77 @@ def symplectic_defect(A, Om, n, d, names):
             if not d.is_zero(acc):
                 bad.append(f'({names[i]},{names[j]})')
     return bad
+
+
+# ------------------------------------------------------------------------------------------------ prefix interpretation of cf_radial_solver
+class _StopPrefix(Exception):
+    pass
+
+
+def solver_bc_table(repo, solve_for, nondimensionalize=False, n_slices=8, n_layers=2):
+    """Interpret cf_radial_solver from its first statement, on symbolic input arrays, until the boundary-condition array (the one it later hands to
+    cf_apply_surface_bc) holds a value for every requested solution type; helpers it calls on the way are inlined.  Nothing depends on the names of the solver's
+    locals or on whether the table is filled inline or in a helper.  Returns (values list of length 3*len(types), frame, symbols)."""
+    from ..core.interp import Frame, Opaque as Opq
+    ms = repo.by_path('TidalPy/RadialSolver/solver.pyx')
+    f = ms.defs.get('cf_radial_solver')
+    if not isinstance(f, ast.FunctionDef):
+        raise AnalysisError('cf_radial_solver vanished')
+    calls = [n for n in ast.walk(f) if isinstance(n, ast.Call) and isinstance(n.func, ast.Name) and n.func.id == 'cf_apply_surface_bc']
+    if not calls or len(calls[0].args) < 3 or not isinstance(calls[0].args[2], ast.Name):
+        raise AnalysisError('cf_radial_solver: call of cf_apply_surface_bc (with the boundary-condition array as third argument) not found')
+    bcname = calls[0].args[2].id
+    ntypes = 1 if solve_for is None else len(solve_for)
+    sym = {'l': X.atom('l', 'pos'), 'R': X.atom('R_planet', 'pos'), 'rho_bulk': X.atom('rho_bulk', 'pos'), 'w': X.atom('frequency', 'pos')}
+    arrs = {}
+    for nm, kind in (('radius', 'pos'), ('density', 'pos'), ('gravity', 'pos'), ('bulk', 'pos'), ('shear', 'complex')):
+        a = Arr(nm + '_array')
+        for i in range(n_slices):
+            a.store[i] = sym['R'] if (nm == 'radius' and i == n_slices - 1) else X.atom(f'{nm}{i}', kind)
+        arrs[nm] = a
+    top = set(id(s) for s in f.body)
+    state = {'frame': None}
+
+    def done(fr):
+        b = fr.vars.get(bcname)
+        if not isinstance(b, Arr):
+            return False
+        try:
+            return all(isinstance(b.store.get(b._key(k)), X.Node) for k in range(3 * ntypes))
+        except Exception:
+            return False
+
+    def stmt_hook(itp, st, fr):
+        if fr.fname == 'cf_radial_solver' and id(st) in top:
+            state['frame'] = fr
+            if done(fr):
+                raise _StopPrefix()
+        return False
+
+    def branch_hook(itp, st, v, fr):
+        return False if isinstance(v, Opq) else None          # isnan(...) of finite inputs
+
+    def glob_hook(itp, mod, nm):
+        if nm in ('G', 'G_'):
+            return X.atom('Gconst', 'pos')
+        return None
+    it = Interp(repo, hooks={'stmt': stmt_hook, 'branch': branch_hook, 'global': glob_hook}, max_depth=12)
+    ints = lambda nm: Arr(nm, default=lambda k: 0)
+    kw = {'total_slices': n_slices, 'radius_array_ptr': arrs['radius'], 'density_array_ptr': arrs['density'], 'gravity_array_ptr': arrs['gravity'], 'bulk_modulus_array_ptr': arrs['bulk'],
+          'complex_shear_modulus_array_ptr': arrs['shear'], 'frequency': sym['w'], 'planet_bulk_density': sym['rho_bulk'], 'num_layers': n_layers, 'layer_types_ptr': ints('layer_types'),
+          'is_static_by_layer_ptr': ints('is_static'), 'is_incompressible_by_layer_ptr': ints('is_incompressible'), 'upper_radius_by_layer_ptr': Arr('upper_radius', default=lambda k: X.atom(f'upper_r{k}', 'pos')),
+          'degree_l': sym['l'], 'solve_for': solve_for, 'nondimensionalize': nondimensionalize}
+    params = {a.arg for a in f.args.args}
+    missing = [k for k in ('total_slices', 'radius_array_ptr', 'gravity_array_ptr', 'degree_l', 'solve_for', 'nondimensionalize', 'planet_bulk_density') if k not in params]
+    if missing:
+        raise AnalysisError(f'cf_radial_solver: parameters {missing} vanished')
+    kw = {k: v for k, v in kw.items() if k in params}
+    try:
+        it.call(ms, f, [], kw)
+    except _StopPrefix:
+        pass
+    else:
+        raise AnalysisError('cf_radial_solver ran to its end without completing the boundary-condition array')
+    fr = state['frame']
+    b = fr.vars[bcname]
+    return [b.store[b._key(k)] for k in range(3 * ntypes)], fr, sym
